@@ -6,6 +6,7 @@ import (
 	"fmt"
 	"math"
 	"runtime"
+	"strings"
 	"sync"
 	"sync/atomic"
 	"time"
@@ -16,12 +17,19 @@ import (
 	"verifharness/vlib"
 )
 
+func uuidOf(m *message.Message) string {
+	if m == nil {
+		return "<nil>"
+	}
+	return m.UUID
+}
+
 func init() {
 	vlib.Register(&vlib.Prop{
 		ID:              "C14",
 		Level:           "exploration",
 		RaceIsViolation: true,
-		Cases:           func(tier string) int { return baseCases(tier) + ctxCases(tier) + r4Cases(tier) },
+		Cases:           func(tier string) int { return baseCases(tier) + ctxCases(tier) + r4Cases(tier) + r5Cases(tier) },
 		Rule: "cases 0..639 (quick) / 0..39999 (thorough): case i runs class i%4: (0) middleware-concurrent, (1) publisher-decorator-concurrent: a multiset of 4..96 messages over 1..5 keys (payload sizes around the 64-byte read limit: equal prefixes with different tails, keys from SHA-256/Adler-32 with limits 1..MaxInt64 or a metadata field), " +
 			"presented by 1..32 goroutines released by a barrier with yield injection at the repository's hook point, retention window 1 h (or the default repository, Repository left nil: one minute); exactly one message per key may reach the handler / inner publisher, all others must come back as (nil,nil) resp. acked and filtered; " +
 			"(2) window: windows 5..50 ms, IsDuplicate polled with conservative monotonic stamps: a key accepted at [a0,a1] must be reported duplicate by any call ending before a0+window, and must be accepted again before the harness's own ticker of period window/2 fired 12 times past a1+window (else inconclusive if the control ticker itself was late); " +
@@ -38,13 +46,21 @@ func init() {
 			"(7, j%5 in 1..3) fault-decorator, (8, j%5==4) fault-middleware: a program of 4..14 calls (decorator: batches of 1..4) over 2..6 keys mixing fresh keys, duplicates of earlier ones and the same key twice in a batch, sequential (60%) or by 2..8 goroutines; the wrapped publisher / handler returns an error or panics when its batch holds a message marked error/panic (15..50% / 0..20% of the messages) and for ~12% of the invocation numbers whatever the batch holds (also empty batches); then every key is presented again twice without faults. " +
 			"A key is confirmed by an invocation that held a message of it and returned nil: no other message of the key may reach the wrapped publisher / handler except in a rejected invocation that ended before the confirming one started (confirmed-key-passed-again), nor two messages of a key in one invocation (batch-internal-duplicate-passed); " +
 			"the fate of the keys of a rejected invocation is counted, not judged; drops need a winner and an ack / (nil,nil); an error or panic comes back only from a call whose invocation failed (error-returned). " +
-			"Non-trivial: at least one key had >=2 concurrent presentations (0,1) / at least one duplicate answer and one re-acceptance were observed (2) / >=20 pairs (3) / at least one arrival whose context may be done (4,5) / every key was accepted >= 4 times and duplicates were answered (6) / at least one rejected invocation and one confirmed key (7,8). Distinct = (class, shape, observed winner pattern).",
+			"The last 240 (quick) / 6000 (thorough) cases run, by index j%4: (9, j%4 in 0..2) retained-decorator, (10, j%4==3) retained-middleware - the arguments of a call belong to the caller: 1..3 callers each KEEP one batch (one slice of 2..6 messages over 2..6 keys, the same key possibly twice; handed over as Publish(topic, batch...), so the decorator works on the caller's backing array; the middleware gets the kept message objects one by one) and present the very same slice again and again; " +
+			"mode fan-out (55%): to 2..3 deduplicators independent of each other (own repository each: 1 h or the default minute) in random order, 0..2 of them again within the window, a quarter of the neighbouring steps to two deduplicators at the same time from two goroutines, callers one after the other or concurrently; every deduplicator was shown a random subset of the keys (25/40/60% each) by another producer before, so each drops different members; " +
+			"mode expiry (45%): to one deduplicator with a window of 5..30 ms round after round (1..4 ticks of a control ticker of period window/2 in between, always 4 once a key is overdue) until every key of the batch was accepted again 1..3 times, then (half of the cases) to a second deduplicator with a 1 h window that has never seen it. " +
+			"Expectations are computed from the batch as the caller built it (private copy): per long-window deduplicator and key presented to it exactly one message reaches the wrapped publisher / handler (none-passed: suppressed by other keys / by what another deduplicator remembers / lost; duplicate-passed); short window: two acceptances of a key span at least the window (accepted-twice-within-window), a presentation of the batch that started later than lastAcceptanceEnd + window*1.5 + 1 s, 40 control ticks past that instant, and let no message of the key through is stuck-after-expiry; " +
+			"a member dropped while nothing of its key got through yet is dropped-without-winner (sequential presentations); no error comes back, dropped members are acked, never-dropped ones not settled, (nil,nil) / the handler's result from the middleware; " +
+			"after every call the caller's slice holds the same message pointers in the same order (caller-batch-rewritten) and UUID, payload and metadata of every member are unchanged (caller-message-changed), reported after the clauses above; the slice passed to Publish is compared in the same way after every decorator call of classes 1, 5 and 7 (also when the call returned an error or panicked), the message values at the end of classes 0 and 1. " +
+			"Non-trivial: at least one key had >=2 concurrent presentations (0,1) / at least one duplicate answer and one re-acceptance were observed (2) / >=20 pairs (3) / at least one arrival whose context may be done (4,5) / every key was accepted >= 4 times and duplicates were answered (6) / at least one rejected invocation and one confirmed key (7,8) / a presentation in which a member was dropped in front of one that got through, and the batch was presented again afterwards (9) / a message dropped by one presentation got through in a later one (10). Distinct = (class, shape, observed winner pattern).",
 		Assumptions: []string{
 			"keys are compared through an independent reference (payload prefix / metadata value); hash collisions between different prefixes are not observable and assumed absent",
 			"time is used only as a lower bound (window) and with a control ticker for the bounded 'accepted again' clause",
 			"ctx classes: an ExpiringKeyRepository may honour its context, so an error for an arrival whose derived context may be done is tolerated and counted (ctx_rejected_with_tolerated_error); such an arrival then counts neither as the one that got through nor as a dropped duplicate",
 			"hot-expiry: 'accepted again after it expired' is judged only sequentially, from a presentation that STARTED more than window*1.5 (documented maximum retention of NewMapExpiringKeyRepository) + 1 s after the end of the last accepting call, and only after 40 ticks of a harness ticker with the clean-up period were received past that instant; time enters as a lower bound only, a slow machine delays the verdict",
 			"fault classes: what a deduplicator does with the keys of a batch the wrapped publisher rejected (error or panic) is not specified by the statement and not judged; retention 1 h or the default minute, second acceptances judged only if the case took less than a quarter of it",
+			"retained classes: a caller may keep and re-use what it passed to Publish / to the middleware (Go passes batch... without copying; neither message.Publisher nor the Deduplicator documentation transfers ownership of the arguments): the statement's 'messages' are the ones the caller built its batch from. Settlement is not part of a message's value here: the decorator acks the duplicates it drops, as documented. " +
+				"'accepted again after it expired' is judged as in hot-expiry (lower bounds, control ticks); a deduplicator with the default repository is judged only if the case took less than a quarter of its minute",
 			"ctx classes: the final presentations use a second Deduplicator (Timeout 1 min) sharing Repository and KeyFactory with the one under test; a second acceptance is judged only if the whole case took less than a quarter of the retention window (else inconclusive)",
 		},
 		Run: run,
@@ -60,7 +76,13 @@ func ctxCases(tier string) int { return vlib.TierN(tier, 320, 12000) }
 // r4Cases: long-running expiry and wrapped-publisher fault classes appended behind them.
 func r4Cases(tier string) int { return vlib.TierN(tier, 320, 6000) }
 
+// r5Cases: retained-batch classes ("arguments belong to the caller") appended behind them.
+func r5Cases(tier string) int { return vlib.TierN(tier, 240, 6000) }
+
 func run(e *vlib.Env) vlib.Result {
+	if b := baseCases(e.Tier) + ctxCases(e.Tier) + r4Cases(e.Tier); e.Idx >= b {
+		return retained(e, (e.Idx-b)%4 != 3)
+	}
 	if b := baseCases(e.Tier) + ctxCases(e.Tier); e.Idx >= b {
 		switch j := (e.Idx - b) % 5; j {
 		case 0:
@@ -199,6 +221,11 @@ func conc(e *vlib.Env, decorator bool) vlib.Result {
 	for i, m := range msgs {
 		idxOf[m] = i
 	}
+	snaps := make([]vlib.MsgSnap, total)
+	for i, m := range msgs {
+		snaps[i] = vlib.Snap(m)
+	}
+	var sliceChecks atomic.Int64
 	out := message.NewMessage("out", nil)
 	handler := func(m *message.Message) ([]*message.Message, error) {
 		mu.Lock()
@@ -262,6 +289,14 @@ func conc(e *vlib.Env, decorator bool) vlib.Result {
 					}
 					err := decPub.Publish("t", batch...)
 					events.Add(int64(len(batch)))
+					// the slice handed over is the caller's: same messages in the same order afterwards
+					sliceChecks.Add(1)
+					for j, ix := range idxs {
+						if batch[j] != msgs[ix] {
+							fail("caller-batch-rewritten: position %d of the slice passed to Publish held message %d and now holds %q", j, ix, uuidOf(batch[j]))
+							break
+						}
+					}
 					for _, ix := range idxs {
 						if err != nil {
 							results[ix] = "error:" + err.Error()
@@ -298,8 +333,19 @@ func conc(e *vlib.Env, decorator bool) vlib.Result {
 		res.Inconclusive("workers did not finish")
 		return res
 	}
+	judgeFailures := func() {
+		for _, f := range failures {
+			if strings.HasPrefix(f, "caller-batch-rewritten: ") {
+				res.Fail("caller-batch-rewritten", "%s (%s)", strings.TrimPrefix(f, "caller-batch-rewritten: "), spec)
+			} else {
+				res.Fail("panic", "%s (%s)", f, spec)
+			}
+		}
+	}
 	for _, f := range failures {
-		res.Fail("panic", "%s (%s)", f, spec)
+		if !strings.HasPrefix(f, "caller-batch-rewritten: ") {
+			res.Fail("panic", "%s (%s)", f, spec)
+		}
 	}
 	// judge
 	perKey := map[string]int{}
@@ -348,9 +394,18 @@ func conc(e *vlib.Env, decorator bool) vlib.Result {
 			}
 		}
 	}
+	// the clauses of the statement first, then what the caller sees in the arguments it handed over
+	judgeFailures()
+	for i, m := range msgs {
+		if !snaps[i].SameValue(m) {
+			res.Fail("caller-message-changed", "message %d was changed by the deduplicator (UUID, payload or metadata): %s", i, spec)
+			break
+		}
+	}
 	if decorator {
 		// no empty-batch problem: every inner call's messages were counted per message above; inner calls may be empty
 		res.Count("inner_publish_calls", len(inner.Calls()))
+		res.Count("caller_slice_checks", int(sliceChecks.Load()))
 	}
 	res.Events = int(events.Load())
 	res.Hooks = ctl.Counts()
